@@ -252,6 +252,41 @@ def c15_run(desc):
         s.cleanup()
 
 
+def c15_second_run(desc):
+    """While a run holds the lock (and streams to the listener, if there is one) a second run of the same
+    repository is started: how it ends (promptly, with a lock error) must not depend on the listener."""
+    s = sc.Scratch("c15b")
+    try:
+        r = sc.Repo(s, "r", TARGETS15, commands={t["path"]: {"build": "x"} for t in TARGETS15}, init_git=False)
+        c = ctlmod.Controller(s)
+        try:
+            lis = Listener(c, r, s, desc["listener"]) if desc["listener"] is not None else None
+            p = c.spawn("run", [common.MONORAIL, "run", "-c", "build", "-t", "a", "b", "c", "--deps"], r.dir, s.env(c.env()))
+            c.wait(lambda: len(c.waiting()) >= 2 or p.done(), 15)
+            if p.done():
+                return {"engine_error": "first run ended early: %s %s" % (p.code, p.err[:200])}
+            t0 = time.time()
+            second = r.mr("run", "-c", "build", "-t", "a", timeout=8)
+            took = time.time() - t0
+            t_end = time.time() + 20
+            while not p.done() and time.time() < t_end:
+                c.pump(0.01)
+                for ch in list(c.waiting()):
+                    c.release(ch, 0)
+            ej = second.err_json() or {}
+            return {"exit": second.code, "hung": second.code == -999, "orphans": 0, "stderr": second.err[:200].decode(errors="replace"),
+                    "failed": ej.get("type"), "statuses": {"second-run": ["timeout" if second.code == -999 else "ended", round(min(took, 8.0) > 5)]},
+                    "logs": {}, "listener_saw": None if lis is None else len(lis.p.out), "first_exit": p.code}
+        finally:
+            c.close()
+    except common.EngineError as e:
+        return {"engine_error": str(e)}
+    except Exception:
+        return {"engine_error": traceback.format_exc()[-1500:]}
+    finally:
+        s.cleanup()
+
+
 def c15_scenarios(tier):
     out = [{"listener": None, "fate": f} for f in FATES]  # one listener-absent baseline per burst pattern
     out += [{"listener": None, "fate": f, "pattern": "tail"} for f in ("never", "mid_output")]
@@ -271,6 +306,10 @@ def c15_scenarios(tier):
     # clean SIGTERM variant
     for fate in FATES[1:]:
         out.append({"listener": ["--stdout", "--stderr"], "fate": fate, "term": True})
+    # a second run of the same repository started while the first one holds the lock
+    out.append({"listener": None, "fate": "never", "pattern": "second-run"})
+    for cfg in (["--stdout", "--stderr"], ["--stderr", "-t", "c"]):
+        out.append({"listener": cfg, "fate": "never", "pattern": "second-run"})
     # two commands in one invocation; the listener's fate is met during the first one
     for f in FATES:
         out.append({"listener": None, "fate": f, "ncmd": 2})
@@ -425,6 +464,9 @@ def c20_run(desc):
                         c.send(ch, ["out " + burst("stdout", t, cmd, k, ll, st).hex(), "err " + burst("stderr", t, cmd, k, ll, st).hex()])
                         c.wait_acks(ch, 10)
                     c.wait(lambda: False, GAP)
+                    if desc.get("quiet_s") and cmd == cmds[0] and k == 0:
+                        # nobody writes anything for a long while (a compiler thinking, a test sleeping)
+                        c.wait(lambda: p.done(), desc["quiet_s"])
                 if desc.get("sibling_fails") and cmd == cmds[-1]:
                     # the second member writes once more on both streams and, before any periodic flush,
                     # the first member exits 1: the sibling is cancelled with output pending
@@ -625,6 +667,10 @@ def c20_scenarios(tier):
     # two runs (different lock ports, same log port) alive on one listener at the same time
     for i in range(2 if tier == "quick" else 6):
         out.append({"two_runs": True, "rep": i, "streams": ["--stdout", "--stderr"], "targets": [], "commands": []})
+    # a long silence (11 s, 31 s in thorough) between two bursts of the same healthy run
+    out.append({"streams": ["--stdout", "--stderr"], "targets": [], "commands": [], "short": True, "quiet_s": 11})
+    if tier != "quick":
+        out.append({"streams": ["--stdout"], "targets": ["a"], "commands": [], "short": True, "quiet_s": 31})
     # filter values given twice
     out.append({"streams": ["--stdout", "--stderr"], "targets": ["a", "a"], "commands": ["build", "build"], "short": True})
     out.append({"streams": ["--stderr"], "targets": [B20, "a", B20], "commands": [], "short": True})
@@ -648,6 +694,8 @@ def _worker(task):
     kind, desc = task
     if kind == "c20" and desc.get("two_runs"):
         return c20_two_runs(desc)
+    if kind == "c15" and desc.get("pattern") == "second-run":
+        return c15_second_run(desc)
     return c15_run(desc) if kind == "c15" else c20_run(desc)
 
 
@@ -661,6 +709,10 @@ def run(prop, tier):
             raise common.EngineError("; ".join(errs[:2]))
         bases = {(d["fate"], d.get("pattern"), d.get("names"), bool(d.get("foreign")), d.get("ncmd")): r for d, r in zip(descs, results) if d["listener"] is None}
         for f, b in bases.items():
+            if f[1] == "second-run":
+                if b.get("exit") in (0, -999):
+                    raise common.EngineError("listener-absent baseline of the second-run pattern was not refused: %s" % json.dumps(b)[:300])
+                continue
             if f[1] == "sibling-fails":
                 if b.get("exit") != 1 or b.get("failed") is not True:
                     raise common.EngineError("listener-absent baseline of the failing pattern did not fail: %s" % json.dumps(b)[:400])
@@ -715,8 +767,12 @@ def replay(prop, path):
     if "c15" in case:
         d = case["c15"]
         # the burst pattern depends on the fate: the baseline is replayed with the same pattern
-        base = c15_run({"listener": None, "fate": d["fate"], "pattern": d.get("pattern"), "names": d.get("names"), "foreign": d.get("foreign"), "ncmd": d.get("ncmd")})
-        obs = c15_run(d)
+        if d.get("pattern") == "second-run":
+            base = c15_second_run({"listener": None, "fate": "never", "pattern": "second-run"})
+            obs = c15_second_run(d)
+        else:
+            base = c15_run({"listener": None, "fate": d["fate"], "pattern": d.get("pattern"), "names": d.get("names"), "foreign": d.get("foreign"), "ncmd": d.get("ncmd")})
+            obs = c15_run(d)
         if "engine_error" in obs or "engine_error" in base:
             print("ENGINE:", obs.get("engine_error") or base.get("engine_error"))
             return 2
